@@ -13,6 +13,10 @@ fn saved_ctx_state(ctx: &SavedCtx) -> SavedCtxState {
 }
 
 impl Terminal {
+    pub(crate) fn verif_other_lines(&self) -> Vec<crate::Line> {
+        self.other_buffer.lines().to_vec()
+    }
+
     pub(crate) fn verif_state(&self) -> VerifState {
         VerifState {
             cols: self.cols,
@@ -21,7 +25,6 @@ impl Terminal {
             scrollback_limit: self.scrollback_limit,
             buffer: self.buffer.verif_state(),
             other_buffer: self.other_buffer.verif_state(),
-            other_lines: self.other_buffer.lines().to_vec(),
             pending_wrap: self.pending_wrap,
             pen: self.pen,
             charsets_drawing: [
